@@ -82,6 +82,25 @@ theorem layout_eq_clang_v6 : Gen.V6.clangLayouts.all (fun e =>
     e.1.layout.map (·.off) == e.2.1 && e.1.size == e.2.2.1 && e.1.align == e.2.2.2) = true :=
   Gen.V6.layout_eq_clang
 
+/-! ## Total size of the Go mirror struct (FALSE of the current code) -/
+
+/-- FULL-STRENGTH statement for the one Go mirror struct: `state.State` has the size of the C
+structure it mirrors. -/
+def StateMirrorSameSize : Prop := Gen.V4.stateMirrorSize = Gen.V4.cali_tc_state.size
+
+/-- It does not: 496 bytes against 464 (IPv4 build; the IPv6 build has 512). The mirror is only used
+by the BPF unit tests; the fields Go uses are covered by `go_matches_c_v4`, and the map value
+(`go_matches_c_v6`, row `cali_tc_state` `exact` 512 / `go_matches_c_v4` `atmost`) holds both. -/
+theorem state_mirror_size_witness :
+    ¬ StateMirrorSameSize ∧ Gen.V4.stateMirrorSize ≠ Gen.V6.cali_tc_state.size := by
+  unfold StateMirrorSameSize; decide +kernel
+
+/-- What holds instead (`_partial`): the mirror is at least as large as the IPv4 structure and not
+larger than the map value; the missing part is equality. -/
+theorem state_mirror_size_partial :
+    Gen.V4.cali_tc_state.size ≤ Gen.V4.stateMirrorSize ∧
+    Gen.V4.stateMirrorSize ≤ Gen.V6.cali_tc_state.size := by decide +kernel
+
 /-! ## Non-vacuity -/
 example : Gen.V4.calico_ct_value.wf := by
   intro f hf
